@@ -104,3 +104,15 @@ func H_c18_two() {
 	symAssert(err == nil && stripCRLF(back2) == stripCRLF(t2), "text-preserved-apart-from-line-normalisation")
 	symReach("end")
 }
+
+// C18 K5: non-ASCII characters all over a text of more than 64 KiB: wherever
+// an implementation cuts the text into pieces (32 KiB blocks, buffer refills),
+// a two-byte character sits across the cut for one of the two parities
+func H_c18_chunks() {
+	shift := strings.Repeat("x", symInt(0, 1))
+	line := strings.Repeat("\u00e9", 399) + "\n"
+	text := shift + strings.Repeat(line, symParam("LINES", 90))
+	symBudget(1500000000)
+	c18Check(text)
+	symReach("end")
+}
